@@ -239,6 +239,7 @@ type samSpec struct {
 	ShortTail  bool    // bias: records end soon after an insertion (C02)
 	Clip       float64
 	InsDisjoint bool   // an insertion anchor is covered by exactly one record
+	EdgeIns    float64 // probability of an insertion as the first / last aligned operation of a record
 }
 
 // genSam builds a SAM case: per query a plan over reference positions (base / deleted / skipped,
@@ -384,6 +385,12 @@ func genSam(r *Rand, sp samSpec) *SamCase {
 				seq = append(seq, rb(n)...)
 			}
 			useEqX := r.P(0.3)
+			if sp.EdgeIns > 0 && r.P(sp.EdgeIns) && !usedIns[a-1] && ins[a-1] == "" {
+				usedIns[a-1] = true
+				x := rb(r.Range(1, 3))
+				add('I', len(x))
+				seq = append(seq, x...)
+			}
 			for p := a; p <= b; p++ {
 				switch state[p] {
 				case 'B':
@@ -414,6 +421,12 @@ func genSam(r *Rand, sp samSpec) *SamCase {
 						add('P', r.Range(1, 2))
 					}
 				}
+			}
+			if sp.EdgeIns > 0 && r.P(sp.EdgeIns) && !usedIns[b] && ins[b] == "" {
+				usedIns[b] = true
+				x := rb(r.Range(1, 3))
+				add('I', len(x))
+				seq = append(seq, x...)
 			}
 			if r.P(sp.Clip) {
 				n := r.Range(1, 4)
